@@ -30,6 +30,8 @@ SPEC = {
         "float64 token arithmetic is modelled by exact integers in 1/U token; two time.Now() calls inside one call are one instant",
         "IPv4 addresses in canonical text; a whitelisted address is allowed by design (whitelist has priority)",
         "admin calls BanIP/UnbanIP/Reset and storage persistence of the lists are outside the time lines",
-        "handshake-level rate bound: checked on every harness case by holdsHS, proved at limiter level (C18_rate)",
+        "handshake time lines of the harness use either Burst=1000 with 1 token/s (inside the hypothesis of C18_handshake) or a small "
+        "burst without refill and a TTL beyond the time line (outside Burst*U <= Rate*TTL, but no bucket is ever dropped there); "
+        "holdsHS is evaluated on all of them",
     ],
 }
